@@ -434,6 +434,10 @@ func (i indexAccessor) Get(container Object) Object {
 }
 
 func setListValue(list *List, value Object, index int64) Object {
+	if index < 0 {
+		return newError("list index out of range: %d", index)
+	}
+
 	if int64(len(list.Value)) > index {
 		list.Value[index] = value
 
